@@ -73,3 +73,12 @@ Example c01_example :
      (2, [(1, (true, 7), [(4,44,1)]); (2, (false, 0), [])], [2])]
   /\ closereq_of (r_outs r) = [(4, 2)] /\ ackhooks_of (r_outs r) = [(1,1); (2,1)].
 Proof. vm_compute. repeat split. Qed.
+
+(* order, not multiset: c01_conservation is an equality of LISTS for arbitrary points, so write order
+   per data id is kept whatever the elapsed times are.  Elapsed times 30,10,20 then 7,3 (decreasing,
+   as the h-upstream ElMode cases write them): delivered in exactly that order. *)
+Example c01_order_example :
+  let ops := [Write 1 [(30,1,1); (10,2,1); (20,3,1)]; Write 2 [(5,9,0)]; Write 1 [(7,4,1); (3,5,1)]; Flush] in
+  let r := urun (uinit PNone []) ops in
+  chunks_pts 1 (chunks_of (r_outs r)) = [(30,1,1); (10,2,1); (20,3,1); (7,4,1); (3,5,1)].
+Proof. vm_compute. reflexivity. Qed.
